@@ -4,6 +4,7 @@ Property theorems only; the model is CV.Store.* and the helper lemmas live in CV
 (`LockInv` is defined in CV/Proofs/StoreLock.lean next to its preservation lemmas.)
 -/
 import CV.Proofs.StoreSorted
+import CV.Proofs.StoreFuel
 namespace CV.Store
 open CV
 
@@ -163,6 +164,14 @@ theorem destroy_deleted_keys_absent (s : State) (hs : KvSorted s) (idx : Nat) (i
   have := kvSorted_unique hs he0 he hk0
   rw [this, hh] at hn
   cases hn
+
+/-- The recursion budget of the invalidation cascade (`deleteSessionTxn` → `updateSessionCheck` →
+    `ensureCheckTxn` → `checkSessionsTxn` → `deleteSessionTxn` …) always suffices: for EVERY state the
+    model-internal error `Err.fuel` is never produced — every level that consumes fuel removes a
+    session row and nothing in the cascade adds one. The model's totalisation hides no behaviour. -/
+theorem fuel_suffices (s : State) (idx : Nat) :
+    (∀ id, deleteSession s idx id ≠ .error .fuel) ∧ (∀ p hc, ensureCheck s idx p hc ≠ .error .fuel) :=
+  ⟨fun id => deleteSession_never_fuel s idx id, fun p hc => ensureCheck_never_fuel s idx p hc⟩
 
 /-! ### non-vacuity -/
 
